@@ -194,6 +194,11 @@ class Signed(BitVector):
             rhs = Integer.decay(rhs)
             target_width = self.width
 
+        if isinstance(rhs, Signed) and rhs.width < self.width:
+            # negate in the width of the result, the most negative
+            # value of a narrower type has no negation of its own width
+            rhs = rhs.resize(self.width)
+
         rhs = -rhs
         return self.add(rhs, target_width)
 
